@@ -23,10 +23,14 @@ type CCelsius struct{ V float64 }
 type CTags []string
 type CPlain string // never registered
 
+// CPoint is a struct whose registered schema is a record (the shape a pointer fast path would take for built-in structs)
+type CPoint struct{ X, Y int64 }
+
 var customNames = map[reflect.Type]string{
 	reflect.TypeOf(CEmail("")): "CEmail",
 	reflect.TypeOf(CCelsius{}): "CCelsius",
 	reflect.TypeOf(CTags(nil)): "CTags",
+	reflect.TypeOf(CPoint{}):   "CPoint",
 }
 
 type logEntry struct {
@@ -73,6 +77,13 @@ func (c logCodec) Read(r *avro.ReadBuf, p unsafe.Pointer) error {
 		*(*CTags)(p) = strings.Split(strings.Clone(s[1:]), ",")
 		return nil
 	}
+	if c.name == "CPoint" {
+		pt := (*CPoint)(p)
+		if err := c.Codec.Read(r, unsafe.Pointer(&pt.X)); err != nil {
+			return err
+		}
+		return c.Codec.Read(r, unsafe.Pointer(&pt.Y))
+	}
 	return c.Codec.Read(r, p) // CCelsius: one double
 }
 
@@ -86,6 +97,12 @@ func (c logCodec) Write(w *avro.WriteBuf, p unsafe.Pointer) {
 	case "CTags":
 		s := string(c.mark) + strings.Join(*(*CTags)(p), ",")
 		c.Codec.Write(w, unsafe.Pointer(&s))
+		return
+	}
+	if c.name == "CPoint" {
+		pt := (*CPoint)(p)
+		c.Codec.Write(w, unsafe.Pointer(&pt.X))
+		c.Codec.Write(w, unsafe.Pointer(&pt.Y))
 		return
 	}
 	c.Codec.Write(w, p)
@@ -104,6 +121,8 @@ func (c logCodec) New(r *avro.ReadBuf) unsafe.Pointer {
 		return r.Alloc(reflect.TypeOf(CEmail("")))
 	case "CTags":
 		return r.Alloc(reflect.TypeOf(CTags(nil)))
+	case "CPoint":
+		return r.Alloc(reflect.TypeOf(CPoint{}))
 	}
 	return r.Alloc(reflect.TypeOf(CCelsius{}))
 }
@@ -115,6 +134,9 @@ func mkBuilder(id int, name string) avro.CodecBuildFunc {
 		builtLog = append(builtLog, logEntry{id, name, "build:" + schema.Type})
 		if name == "CCelsius" {
 			return logCodec{Codec: avro.DoubleCodec{}, id: id, name: name}, nil
+		}
+		if name == "CPoint" {
+			return logCodec{Codec: avro.Int64Codec{}, id: id, name: name}, nil
 		}
 		return logCodec{Codec: avro.StringCodec{}, id: id, name: name, mark: byte('A' + id%26)}, nil
 	}
@@ -176,6 +198,16 @@ type HTags struct {
 	M map[string]CTags `json:"m"`
 	Z []string         `json:"z"`
 }
+type HPoint struct {
+	F  CPoint            `json:"f"`
+	P  *CPoint           `json:"p"`
+	L  []CPoint          `json:"l"`
+	M  map[string]CPoint `json:"m"`
+	LP []*CPoint         `json:"lp"`
+	N  struct {
+		PP *CPoint `json:"pp"`
+	} `json:"n"`
+}
 type HNone struct {
 	A CPlain   `json:"a"`
 	B []CPlain `json:"b"`
@@ -195,7 +227,10 @@ func holderValues(c *driverCtx) []reflect.Value {
 	hc2 := HCelsius{}
 	ht := HTags{F: CTags{"a", "b"}, P: &pt, L: []CTags{{"x"}, nil}, M: map[string]CTags{"m": {"y", "z"}}, Z: []string{"plain"}}
 	hn := HNone{A: "a", B: []CPlain{"b1", "b2"}, C: "c"}
-	vals := []any{he, he2, hc, hc2, ht, hn}
+	pp := CPoint{7, -8}
+	hp := HPoint{F: CPoint{1, 2}, P: &pp, L: []CPoint{{3, 4}}, M: map[string]CPoint{"k": {5, 6}}, LP: []*CPoint{&pp, nil}}
+	hp.N.PP = &pp
+	vals := []any{he, he2, hc, hc2, ht, hn, hp, HPoint{}}
 	out := make([]reflect.Value, len(vals))
 	for i, v := range vals {
 		p := reflect.New(reflect.TypeOf(v))
@@ -251,7 +286,7 @@ func useAll(c *driverCtx, rs *regState, step string) {
 
 func driveC20(c *driverCtx) error {
 	rs := &regState{builder: map[string]int{}, schema: map[string]string{}}
-	types := map[string]reflect.Type{"CEmail": reflect.TypeOf(CEmail("")), "CCelsius": reflect.TypeOf(CCelsius{}), "CTags": reflect.TypeOf(CTags(nil))}
+	types := map[string]reflect.Type{"CEmail": reflect.TypeOf(CEmail("")), "CCelsius": reflect.TypeOf(CCelsius{}), "CTags": reflect.TypeOf(CTags(nil)), "CPoint": reflect.TypeOf(CPoint{})}
 	nextID := 1
 	register := func(name string) {
 		avro.Register(types[name], mkBuilder(nextID, name))
@@ -278,6 +313,8 @@ func driveC20(c *driverCtx) error {
 	registerSchema("CCelsius", `"double"`)
 	register("CTags")
 	registerSchema("CTags", `"string"`)
+	register("CPoint")
+	registerSchema("CPoint", `{"type":"record","name":"CPoint","fields":[{"name":"X","type":"long"},{"name":"Y","type":"long"}]}`)
 	useAll(c, rs, "1-registered")
 	// step 2: re-register codecs (the most recent builder wins)
 	register("CEmail")
@@ -288,9 +325,9 @@ func driveC20(c *driverCtx) error {
 	register("CTags")
 	useAll(c, rs, "3-reregistered-schema")
 	// step 4: interleaved further registrations in a seeded order
-	names := []string{"CEmail", "CCelsius", "CTags"}
+	names := []string{"CEmail", "CCelsius", "CTags", "CPoint"}
 	for k := 0; k < c.pick(3, 12); k++ {
-		n := names[c.rng.Intn(3)]
+		n := names[c.rng.Intn(4)]
 		register(n)
 		if c.rng.Intn(2) == 0 && n == "CCelsius" {
 			registerSchema(n, []string{`"double"`, `["null","double"]`}[c.rng.Intn(2)])
